@@ -241,9 +241,9 @@ package index
 //@   ghost at after call os.Open#0: gopened = ($r1 == nil)
 //@   assert at before call os.Open#0: @snapshot-name $a0 == basePath + ".buckets"
 //@   assert at before call os.Remove#0: @remove-name $a0 == basePath + ".buckets"
-//@   ensures @D4-snapshot-removed gopened ==> event("call:os.Remove") == 1
-//@   ensures @no-other-mutation event("call:os.Rename") == 0 && event("call:os.Truncate") == 0 && event("call:os.WriteFile") == 0 && (!gopened ==> event("call:os.Remove") == 0)
-//@   ensures @not-opened-unchanged !gopened ==> err != nil && forall j int :: 0 <= j && j < len(buckets) ==> buckets[j] == old(buckets[j])
+//@   internal ensures @D4-snapshot-removed gopened ==> event("call:os.Remove") == 1
+//@   internal ensures @no-other-mutation event("call:os.Rename") == 0 && event("call:os.Truncate") == 0 && event("call:os.WriteFile") == 0 && (!gopened ==> event("call:os.Remove") == 0)
+//@   internal ensures @not-opened-unchanged !gopened ==> err != nil && forall j int :: 0 <= j && j < len(buckets) ==> buckets[j] == old(buckets[j])
 //@   loop 0 invariant 0 <= i && i <= len(buckets) && gopened && len(buf) == 8 && event("call:os.Remove") == 0
 //@   loop 0 invariant event("call:os.Rename") == 0 && event("call:os.Truncate") == 0 && event("call:os.WriteFile") == 0
 
@@ -480,8 +480,9 @@ package index
 //@   ensures name == fname(basePath, fileNum)
 
 //@ func readHeader(filePath string) (h Header, err error)
-//@   trusted reads the header file (encoding/json round trip of what writeHeader wrote)
+//@   trusted reads the header file (encoding/json round trip of what writeHeader wrote; the recorded configuration is one Open accepted: 8..31 bits, file size 1..2^30)
 //@   pure
+//@   ensures err == nil ==> h.MaxFileSize > 0 && h.MaxFileSize <= (1 << 30) && h.BucketsBits >= 8 && h.BucketsBits <= 31
 
 //@ func writeHeader(headerPath string, header Header) (err error)
 //@   trusted the header file is rewritten in place by os.WriteFile (finding F11: not atomic; see DESIGN.md)
@@ -624,13 +625,51 @@ package index
 //@   loop 0 invariant @cursor pos >= 0 && pos <= file.$size && file.$size < (1 << 62) && gB[pos] && file != nil && fresh(file) && len(sizeBuffer) == 4 && fresh(sizeBuffer) && (baseof(scratch) == 0 || fresh(scratch)) && gend == 0 - 1 && !gtruncfailed
 
 // Open / MoveFiles as seen by package store (translateIndex, OpenStore): opaque constructors.
-//@ func Open(ctx context.Context, path string, primary primary.PrimaryStorage, indexSizeBits uint8, maxFileSize uint32, gcInterval time.Duration, gcTimeLimit time.Duration, fileCache *filecache.FileCache) (idx *Index, err error)
-//@   trusted T5 contract pending for the constructor body (header check, upgrade, snapshot load or scan, collector start); see DESIGN.md 10
-//@   modifies ctx.$done
+// Open (C09, C17, C02): configuration mismatches are refused with their specific error before
+// the header is written, before the bucket snapshot is consumed (bit size and index file size)
+// and before any descriptor is kept; the index handed back is open, has nothing pending and
+// its collector channels are its own. The legacy upgrade, the recovery scan, the remapping and
+// the last-file search are callees under their own (or assumed) contracts.
+//@ func Open(ctx context.Context, path string, primary primary.PrimaryStorage, indexSizeBits uint8, maxFileSize uint32, gcInterval time.Duration, gcTimeLimit time.Duration, fileCache *filecache.FileCache) (idx *Index, err error)  property C09 C17 C02
+//@   requires !primary.$pending || primary.$failed
+//@   modifies ctx.$done, fp(IO), fp(FC), heap("bufio.")
 //@   fresh idx
-//@   ensures err == nil ==> idx != nil && idx.Primary == primary && !idx.$closed && !idx.$pending && !oncedone(idx.closeOnce)
-//@   ensures err == nil ==> (idx.gcStop == nil || fresh(idx.gcStop)) && (idx.gcDone == nil || fresh(idx.gcDone))
-//@   ensures err != nil ==> idx == nil
+// input invariant: an index file is smaller than 4 GiB (records start below the 2^30 limit and are smaller than 2^30)
+//@   assume at after call (os.FileInfo).Size#0: @format-index-file-size $r0 < 4294967296
+//@   ghost at return: idx.$closed = ite(err == nil, false, idx.$closed)
+//@   ghost at return: idx.$pending = ite(err == nil, false, idx.$pending)
+//@   ensures @opened err == nil ==> idx != nil && idx.Primary == primary && !idx.$closed && !idx.$pending && !oncedone(idx.closeOnce)
+//@   ensures @own-channels err == nil ==> (idx.gcStop == nil || fresh(idx.gcStop)) && (idx.gcDone == nil || fresh(idx.gcDone))
+//@   ensures @failed err != nil ==> idx == nil
+//@   unreachable return#5: NewBuckets only fails for more than 32 bits and the bit size was already checked to be at most 31 (or comes from an accepted header)
+//@   ghost var gexisting bool = false
+//@   ghost at after call index.readHeader#0: gexisting = ($r1 == nil)
+//@   assert at before call index.writeHeader#0: @C09-header-written-only-when-none-existed !gexisting
+//@   assert at before call index.loadBucketState#0: @C09-snapshot-consumed-only-after-config-check gexisting && header.BucketsBits == indexSizeBits && header.MaxFileSize == maxFileSize
+//@   assert at before call index.scanIndex#0: @C09-scan-only-after-config-check gexisting && header.BucketsBits == indexSizeBits && header.MaxFileSize == maxFileSize
+//@   assert at before call index.remapIndex#0: @C09-remap-only-after-config-check gexisting && header.BucketsBits == indexSizeBits && header.MaxFileSize == maxFileSize && header.PrimaryFileSize == 0
+//@   assert at before call index.openFileAppend#0: @C09-index-file-opened-only-after-config-check gexisting ==> header.BucketsBits == indexSizeBits && header.MaxFileSize == maxFileSize
+
+//@ func upgradeIndex(ctx context.Context, name string, headerPath string, maxFileSize uint32) (err error)
+//@   trusted T5 contract pending: converts a version-2 single-file index (chunkOldIndex is under contract); no-op for a current index
+//@   modifies ctx.$done
+
+//@ func scanIndex(ctx context.Context, basePath string, fileNum uint32, buckets Buckets, maxFileSize uint32) (last uint32, err error)
+//@   trusted loop over scanIndexFile (which is under contract) until a file does not exist
+//@   modifies elems(buckets), ctx.$done
+
+//@ func findLastIndex(basePath string, fileNum uint32) (last uint32, err error)
+//@   trusted probes index file names upwards from fileNum with os.Stat
+//@   pure
+
+//@ func remapIndex(ctx context.Context, mp *mhprimary.MultihashPrimary, buckets Buckets, basePath string, headerPath string, header Header) (pool bucketPool, err error)
+//@   trusted T5 contract pending: re-points index entries after a primary upgrade (RemapOffset is under contract); finding F16
+//@   modifies elems(buckets), ctx.$done
+//@   ensures forall b BucketIndex :: (b in pool) ==> len(pool[b]) < (1 << 31) - 8
+
+//@ func NewBuckets(indexSizeBits uint8) (b Buckets, err error)  property C09
+//@   ensures err == nil <==> indexSizeBits <= 32
+//@   ensures err == nil ==> len(b) == (1 << indexSizeBits) && fresh(b)
 
 //@ func MoveFiles(indexPath string, newDir string) (err error)
 //@   trusted renames every file of the index into newDir (os.Rename per file; not atomic as a whole: finding F15)
@@ -663,4 +702,9 @@ package index
 //@ func createFileAppend(name string) (f *os.File, err error)  property C10
 //@   fresh f
 //@   ensures @created-empty err == nil ==> f != nil && f.$open && f.$size == 0 && f.$name == name
+//@   ensures err != nil ==> f == nil
+
+//@ func openFileAppend(name string) (f *os.File, err error)  property C17
+//@   fresh f
+//@   ensures err == nil ==> f != nil && f.$open && f.$name == name && 0 <= f.$size && f.$size < (1 << 62)
 //@   ensures err != nil ==> f == nil
